@@ -17,7 +17,8 @@ package main
 //         the model only when the implementation already behaves as repaired).
 //   delim one metric name / tag value with the key delimiters: known finding F05b.
 //   dot   metric names containing the separator: known finding F11b.
-//   conc  snapshots taken while other goroutines record: monotone bounds only.
+//   conc  snapshots taken while other goroutines record: the bounds of theorem
+//         C11_concurrent_snapshot_bounds (Model/SnapConc.v).
 
 import (
 	"encoding/json"
@@ -1041,7 +1042,7 @@ func c11Class(c *c11Case) string {
 func init() {
 	props["C11"] = func(ctx *Ctx) {
 		ctx.Header("SnapshotCorr")
-		ctx.Res.Rule = "case = (registry shard count, root prefix and tags, history of record / get / Close / Snapshot operations addressed by derivation paths, Snapshot being called on the test scope or on any scope derived from it; every tag map handed to NewTestScope / Tagged is overwritten by the caller as soon as the call returns); generated from the seed; non-trivial = at least one snapshot with at least two entries; distinct by history hash. Streams dup / delim / dot replay the known findings; conc = snapshots concurrent with recording (bounds only); sched = goroutines deriving, recording and closing subscopes under controlled interleavings over the registry's and the metric getters' yield points (final snapshot = tally of all operations); storm = several goroutines behind a spin barrier take snapshots of one quiescent tree of 64..192 metrics at the same time, each snapshot = the tally exactly"
+		ctx.Res.Rule = "case = (registry shard count, root prefix and tags, history of record / get / Close / Snapshot operations addressed by derivation paths, Snapshot being called on the test scope or on any scope derived from it; every tag map handed to NewTestScope / Tagged is overwritten by the caller as soon as the call returns); generated from the seed; non-trivial = at least one snapshot with at least two entries; distinct by history hash. Streams dup / delim / dot replay the known findings; conc = snapshots concurrent with recording (the conclusion of theorem C11_concurrent_snapshot_bounds: recordings completed before the snapshot <= shown <= recordings started before it ended, per counter / timer length / histogram total); sched = goroutines deriving, recording and closing subscopes under controlled interleavings over the registry's and the metric getters' yield points (final snapshot = tally of all operations); storm = several goroutines behind a spin barrier take snapshots of one quiescent tree of 64..192 metrics at the same time, each snapshot = the tally exactly"
 		one := func(c *c11Case) {
 			if c.Stream == "conc" {
 				c11Conc(ctx, c)
